@@ -1,4 +1,5 @@
 import BareProofs.C15Spec
+import BareProofs.C15Text
 
 /-!
 # C15 — array, object and string functions obey their sequence / map / string contracts
@@ -434,5 +435,174 @@ theorem lib_spec (f : String) (args : List Value) (h : Heap) : eff f args h = Sp
 theorem lib_eq_specLib : lib = Spec.specLib := by
   funext f args h
   simp only [lib, Spec.specLib, lib_spec]
+
+/-! ## histories -/
+
+theorem step_spec (s : St) (c : Call) : step lib s c = step Spec.specLib s c := by rw [lib_eq_specLib]
+
+/-- **history_refines.** For every sequence of calls issued from a script (any length, any arguments, any initial pool)
+the state reached by the Python-shaped model — all variables and the whole heap — is the fold of the reference operations.
+Variables bound to the same container hold the same reference, so every alias observes exactly the contents the reference
+sequence / map gives. -/
+theorem history_refines (cs : List Call) (s : St) : runHistory lib cs s = runHistory Spec.specLib cs s := by
+  induction cs generalizing s with
+  | nil => rfl
+  | cons c cs ih =>
+    simp only [runHistory, List.foldl_cons] at ih ⊢
+    rw [step_spec]
+    exact ih _
+
+/-- variables are never rebound: a history only appends one result per call -/
+theorem history_env (L : LibT) (cs : List Call) (s : St) :
+    ∃ rs, rs.length = cs.length ∧ (runHistory L cs s).env = s.env ++ rs := by
+  induction cs generalizing s with
+  | nil => exact ⟨[], rfl, by simp [runHistory]⟩
+  | cons c cs ih =>
+    obtain ⟨rs, hl, he⟩ := ih (step L s c)
+    refine ⟨(L c.fn (c.args.map (evalArg s.env)) s.heap).1.val :: rs, by simp [hl], ?_⟩
+    simp only [runHistory, List.foldl_cons] at he ⊢
+    rw [he]
+    simp [step]
+
+/-- the heap only grows along a history -/
+theorem history_heap_le (cs : List Call) (s : St) : s.heap.length ≤ (runHistory lib cs s).heap.length := by
+  induction cs generalizing s with
+  | nil => exact Nat.le_refl _
+  | cons c cs ih =>
+    simp only [runHistory, List.foldl_cons] at ih ⊢
+    exact Nat.le_trans (lib_length c.fn _ s.heap).1 (ih (step lib s c))
+
+/-- container `r` is never passed first to a mutator along the history (decided call by call on the evaluated arguments) -/
+def Untouched (r : Nat) : List Call → St → Prop
+  | [], _ => True
+  | c :: cs, s =>
+    ¬ (c.fn ∈ mutators ∧ ((c.args.map (evalArg s.env)).head? = some (.arr r) ∨ (c.args.map (evalArg s.env)).head? = some (.obj r))) ∧
+    Untouched r cs (step lib s c)
+
+/-- **history_frame.** Along any history a container keeps its contents as long as it is not itself passed first to a
+mutator — whatever happens to its aliases' *other* containers, to copies and slices made of it, or to containers it is
+nested in. In particular a copy is unaffected by mutations of the original and vice versa. -/
+theorem history_frame (r : Nat) (cs : List Call) (s : St) (hr : r < s.heap.length) (hu : Untouched r cs s) :
+    (runHistory lib cs s).heap[r]? = s.heap[r]? := by
+  induction cs generalizing s with
+  | nil => rfl
+  | cons c cs ih =>
+    obtain ⟨h1, h2⟩ := hu
+    simp only [runHistory, List.foldl_cons] at ih ⊢
+    have hlen : r < (step lib s c).heap.length := Nat.lt_of_lt_of_le hr (lib_length c.fn _ s.heap).1
+    rw [ih (step lib s c) hlen h2]
+    exact lib_frame c.fn _ s.heap r hr h1
+
+/-- two variables bound to the same value are indistinguishable by any call: same result, same heap -/
+theorem alias_same (L : LibT) (s : St) (f : String) (i j : Nat) (rest : List Arg) (hij : s.env[i]? = s.env[j]?) :
+    step L s ⟨f, .var i :: rest⟩ = step L s ⟨f, .var j :: rest⟩ := by
+  simp [step, evalArg, hij]
+
+/-! ## the map contract of objects (`dictSet`, `dictDel`, `dictUpdate` are the reference operations) -/
+
+theorem dictGet_dictSet (kvs : List (String × Value)) (k k' : String) (v : Value) :
+    dictGet (dictSet kvs k v) k' = if k' = k then some v else dictGet kvs k' := by
+  induction kvs with
+  | nil =>
+    by_cases h : k' = k
+    · subst h; simp [dictSet, dictGet, List.lookup]
+    · have : (k' == k) = false := by simpa using h
+      simp [dictSet, dictGet, List.lookup, this, h]
+  | cons p kvs ih =>
+    obtain ⟨k0, v0⟩ := p
+    unfold dictGet at ih ⊢
+    by_cases h0 : k0 = k
+    · subst h0
+      by_cases h : k' = k0
+      · subst h; simp [dictSet, List.lookup]
+      · have : (k' == k0) = false := by simpa using h
+        simp [dictSet, List.lookup, this, h]
+    · have hb : (k0 == k) = false := by simpa using h0
+      simp only [dictSet, hb, Bool.false_eq_true, if_false, List.lookup_cons]
+      by_cases h1 : k' = k0
+      · subst h1
+        have : ¬ k' = k := h0
+        simp [this]
+      · have : (k' == k0) = false := by simpa using h1
+        simp only [this]
+        exact ih
+
+theorem dictGet_dictDel (kvs : List (String × Value)) (k k' : String) :
+    dictGet (dictDel kvs k) k' = if k' = k then none else dictGet kvs k' := by
+  induction kvs with
+  | nil => simp [dictDel, dictGet]
+  | cons p kvs ih =>
+    obtain ⟨k0, v0⟩ := p
+    unfold dictGet dictDel at ih ⊢
+    by_cases h0 : k0 = k
+    · subst h0
+      simp only [List.filter_cons, beq_self_eq_true, Bool.not_true, Bool.false_eq_true, if_false, List.lookup_cons]
+      rw [ih]
+      by_cases h : k' = k0
+      · simp [h]
+      · have : (k' == k0) = false := by simpa using h
+        simp [h, this]
+    · have hb : (k0 == k) = false := by simpa using h0
+      simp only [List.filter_cons, hb, Bool.not_false, if_true, List.lookup_cons]
+      by_cases h1 : k' = k0
+      · subst h1
+        have : ¬ k' = k := h0
+        simp [this]
+      · have : (k' == k0) = false := by simpa using h1
+        simp only [this]
+        exact ih
+
+/-- keys stay unique, an existing key keeps its position, a new key goes to the end -/
+theorem dictSet_keys (kvs : List (String × Value)) (k : String) (v : Value) :
+    (dictSet kvs k v).map (·.1) = if dictHas kvs k then kvs.map (·.1) else kvs.map (·.1) ++ [k] := by
+  induction kvs with
+  | nil => simp [dictSet, dictHas]
+  | cons p kvs ih =>
+    obtain ⟨k0, v0⟩ := p
+    unfold dictHas at ih ⊢
+    by_cases h0 : k0 = k
+    · subst h0; simp [dictSet, List.lookup]
+    · have hb : (k0 == k) = false := by simpa using h0
+      have hb' : (k == k0) = false := by simpa using (fun h => h0 h.symm)
+      simp only [dictSet, hb, Bool.false_eq_true, if_false, List.map_cons, List.lookup_cons, hb', ih]
+      split <;> simp
+
+/-! ## non-vacuity: aliasing, copies, failure -/
+
+/-- pool: cell 0 = `[1, 2, 3]`; variables `a = v0`, `alias = v1` (same array), then
+`c = arrayCopy(a)`, `arrayPush(alias, 9)`, `x = arrayGet(a, 3)`, `n = arrayLength(c)` -/
+def demo : List Call := [⟨"arrayCopy", [.var 0]⟩, ⟨"arrayPush", [.var 1, .lit (numN 9)]⟩,
+  ⟨"arrayGet", [.var 0, .lit (numN 3)]⟩, ⟨"arrayLength", [.var 2]⟩]
+def demo0 : St := ⟨[.arr 0, .arr 0], [.arr [numN 1, numN 2, numN 3]]⟩
+
+/-- the push through one alias is seen through the other (`x = 9`), the copy is a new cell and keeps its three elements -/
+example : runHistory lib demo demo0 =
+    ⟨[.arr 0, .arr 0, .arr 1, .arr 0, numN 9, numN 3],
+     [.arr [numN 1, numN 2, numN 3, numN 9], .arr [numN 1, numN 2, numN 3]]⟩ := by decide
+
+/-- `history_frame` applies to the copy (cell 1) in the rest of that history: hypotheses inhabited -/
+example : Untouched 1 (demo.drop 1) (runHistory lib (demo.take 1) demo0) := by decide
+
+/-- a mutator with an index written as a fraction, a negative index, an index past the end, a wrong-typed, a missing and a
+surplus argument: the documented failure value, heap untouched -/
+example : (([numI 3 / 2, numI (-1), numN 3] : List Rat).map fun q =>
+    lib "arraySet" [.arr 0, .num q, .null] [.arr [numN 1, numN 2, numN 3]]) = [] → False := by decide
+example : lib "arraySet" [.arr 0, .num (mkRat 3 2), .null] demo0.heap = (.fail .null, demo0.heap) := by decide
+example : lib "arraySet" [.arr 0, numI (-1), .null] demo0.heap = (.fail .null, demo0.heap) := by decide
+example : lib "arraySet" [.arr 0, numN 3, .null] demo0.heap = (.fail .null, demo0.heap) := by decide
+example : lib "arraySet" [.arr 0, .bool true, .null] demo0.heap = (.fail .null, demo0.heap) := by decide
+example : lib "arraySet" [.arr 0] demo0.heap = (.fail .null, demo0.heap) := by decide
+example : lib "arraySet" [.arr 0, numN 0, .null, .null] demo0.heap = (.fail .null, demo0.heap) := by decide
+example : lib "arrayIndexOf" [.str "x", numN 1] demo0.heap = (.fail (numI (-1)), demo0.heap) := by decide
+example : lib "arrayLength" [.null] demo0.heap = (.fail (numN 0), demo0.heap) := by decide
+example : lib "objectHas" [.arr 0, .str "k"] demo0.heap = (.fail (.bool false), demo0.heap) := by decide
+example : lib "objectGet" [.arr 0, .str "k", numN 7] demo0.heap = (.fail (numN 7), demo0.heap) := by decide
+/-- and the successful counterpart -/
+example : lib "arraySet" [.arr 0, numN 2, .str "z"] demo0.heap = (.ok (.str "z"), [.arr [numN 1, numN 2, .str "z"]]) := by decide
+/-- a slice of the whole array is a new cell -/
+example : lib "arraySlice" [.arr 0] demo0.heap = (.ok (.arr 1), demo0.heap ++ [.arr [numN 1, numN 2, numN 3]]) := by decide
+/-- objects: insertion order, assignment from a second object leaves that object alone -/
+example : lib "objectAssign" [.obj 0, .obj 1] [.obj [("a", numN 1)], .obj [("b", numN 2), ("a", numN 3)]] =
+    (.ok (.obj 0), [.obj [("a", numN 3), ("b", numN 2)], .obj [("b", numN 2), ("a", numN 3)]]) := by decide
 
 end C15
